@@ -1841,7 +1841,8 @@ func (mvcc *MVCCLevelDB) RawBatchGet(cf string, keys [][]byte) [][]byte {
 
 	db := mvcc.getDB(cf)
 	if db == nil {
-		return nil
+		// nothing was ever written to this column family: no key has a value
+		return make([][]byte, len(keys))
 	}
 
 	values := make([][]byte, 0, len(keys))
